@@ -584,6 +584,57 @@ impl R {
                 }
                 d.line()
             }
+            ["hbody", p, op, pre, len] => {
+                let pr = match self.proto(p) {
+                    Some(x) => x,
+                    None => return "bad-op".to_string(),
+                };
+                let (pre, len) = match (parse_hex(pre), len.parse::<u32>()) {
+                    (Some(a), Ok(b)) if b <= 3 => (a, b),
+                    _ => return "bad-op".to_string(),
+                };
+                let f = if *op == "msg" { pr.msg } else { pr.cl };
+                let total = 256u64.pow(len);
+                let mut h = FNV_OFFSET;
+                let mut bytes = pre.clone();
+                bytes.resize(pre.len() + len as usize, 0);
+                for k in 0..total {
+                    for j in 0..len as usize {
+                        bytes[pre.len() + j] = (k / 256u64.pow(len - 1 - j as u32)) as u8;
+                    }
+                    let d = f(&bytes);
+                    self.oracle_bytes(f, &d, &to_hex(&bytes), "-", o);
+                    h = fnv_bytes(h, d.line().as_bytes());
+                    h = fnv_byte(h, 10);
+                }
+                o.add("bodies_swept", total);
+                format!("h {}", h)
+            }
+            ["hobjpos", p, id, base, pos, lo, hi] => {
+                let pr = match self.proto(p) {
+                    Some(x) => x,
+                    None => return "bad-op".to_string(),
+                };
+                let (tid, base, pos, lo, hi) = match (parse_type_id(id), parse_ints(base), pos.parse::<usize>(), lo.parse::<i32>(), hi.parse::<i32>()) {
+                    (Some(a), Some(b), Ok(c), Ok(d), Ok(e)) if c < b.len() => (a, b, c, d, e),
+                    _ => return "bad-op".to_string(),
+                };
+                let mut h = FNV_OFFSET;
+                let mut xs = base.clone();
+                for v in lo..=hi {
+                    xs[pos] = v;
+                    let d = (pr.obj)(tid, &xs);
+                    let hb = match &d {
+                        ODec::Ok(n, ..) => pr.objects.iter().find(|d| d.name == n).map(|d| d.members.iter().any(t_has_bool)).unwrap_or(false),
+                        _ => false,
+                    };
+                    self.oracle_obj(&d, &xs, "-", hb, o);
+                    h = fnv_bytes(h, d.line().as_bytes());
+                    h = fnv_byte(h, 10);
+                }
+                o.add("object_fields_swept", (hi as i64 - lo as i64 + 1).max(0) as u64);
+                format!("h {}", h)
+            }
             ["size", p, n] => {
                 let pr = match self.proto(p) {
                     Some(x) => x,
@@ -1108,6 +1159,17 @@ impl Domain for Dm {
                         }
                         writeln!(w, "{} {} {} -", op, p, to_hex(&b)).unwrap();
                     }
+                    // exhaustive: every body of 0, 1 (and 2) bytes behind the id
+                    for len in 0..=1 {
+                        writeln!(w, "hbody {} {} {} {}", p, op, to_hex(&idb), len).unwrap();
+                    }
+                    if thorough {
+                        for b0 in 0..=255u8 {
+                            let mut pre = idb.clone();
+                            pre.push(b0);
+                            writeln!(w, "hbody {} {} {} 1", p, op, to_hex(&pre)).unwrap();
+                        }
+                    }
                     // values of the wrong shape
                     writeln!(w, "{} {} {} []", bop, p, bname).unwrap();
                     writeln!(w, "{} {} {} [i0]", bop, p, bname).unwrap();
@@ -1188,6 +1250,11 @@ impl Domain for Dm {
                         })
                         .collect();
                     writeln!(w, "obj {} {} {} -", p, ids, ints_str(&xs)).unwrap();
+                }
+                // exhaustive per field: every value of a window around all declared ranges
+                let (lo, hi) = if thorough { (-70, 300) } else { (-4, 17) };
+                for pos in 0..base.len() {
+                    writeln!(w, "hobjpos {} {} {} {} {} {}", p, ids, ints_str(&base), pos, lo, hi).unwrap();
                 }
                 writeln!(w, "bobj {} {} []", p, d.name).unwrap();
             }
